@@ -66,7 +66,7 @@ int e1_callback_count() { return 4; }
 
 // ---------------------------------------------------------------------------------------------
 struct Dev { int p; LD v; };
-struct Assignment { int nd; Dev d[3]; int structured = -1; };  // structured >= 0: index into Ctx::structured (any number of deviations)
+struct Assignment { int nd; Dev d[3]; int structured = -1; int fam = -1; unsigned mask = 0; };  // fam >= 0: every parameter of Ctx::families[fam] whose bit is set in mask is 0  // structured >= 0: index into Ctx::structured (any number of deviations)
 
 struct Stat { long n = 0; double maxratio = 0; double maxratio_op = 0; long nviol = 0; long nknown = 0; };
 struct Opts {
@@ -102,7 +102,7 @@ static Params generic_base(const std::vector<std::string>& names, int seed) {
 
 struct Ctx {
   const System* sys; Params base; std::vector<LD> dflt; std::vector<std::vector<LD>> alpha; std::vector<Pt> pts;
-  std::vector<Assignment> as; int level_end[4]; size_t zero_pairs = 0, nstructured = 0; std::vector<std::vector<Dev>> structured; std::vector<std::string> namesB;
+  std::vector<Assignment> as; int level_end[4]; size_t zero_pairs = 0, nstructured = 0, relation_pairs = 0, family_sets = 0; std::vector<std::vector<int>> families; std::vector<int> family_full; std::vector<std::vector<Dev>> structured; std::vector<std::string> namesB;
 };
 
 static std::string fmt_params(const Params& P) {
@@ -266,8 +266,9 @@ struct Runner {
   // returns false if inadmissible
   bool run_assignment(const Assignment& a) {
     Params P = C.base;
-    for (int k = 0; k < a.nd && a.structured < 0; k++) P.m[P.names[a.d[k].p]] = a.d[k].v;
+    for (int k = 0; k < a.nd && a.structured < 0 && a.fam < 0; k++) P.m[P.names[a.d[k].p]] = a.d[k].v;
     if (a.structured >= 0) for (auto& dv : C.structured[a.structured]) P.m[P.names[dv.p]] = dv.v;
+    if (a.fam >= 0) { const std::vector<int>& F = C.families[a.fam]; for (size_t k = 0; k < F.size(); k++) if (a.mask >> k & 1) P.m[P.names[F[k]]] = 0; }
     // long-double-only pass: every input gets a full 64-bit mantissa (the reference receives exactly that long double value; it is NOT
     // representable in double), so a double temporary holding nothing but inputs (Gamma - 1, a*pi/L ...) is no longer exact by accident
     if (O.ldfull) for (auto& kv : P.m) if (std::find(C.sys->frozen.begin(), C.sys->frozen.end(), kv.first) == C.sys->frozen.end()) kv.second = kv.second * 1.00000000012345678901L;  // rounded to long double: a full 64-bit mantissa
@@ -350,6 +351,47 @@ static void build_ctx(Ctx& C, const System& sys, int tier) {
     }
   }
   C.zero_pairs = C.as.size() - C.level_end[3];
+  // relation assignments: one parameter set equal (and opposite) to the base value of another one -- shortcuts that compare two
+  // parameters, common sub-expressions that are only common when two inputs coincide.  Same grouping as the zero pairs; quick tier:
+  // p_j := +-b_i for i < j, thorough tier: both directions.  Not part of the deviation-ball bound either (the value is outside the alphabet).
+  if (!g_red && !sys.alphabet) {  // a system with its own alphabet defines its admissible neighbourhood itself (relative moves around a physical calibration)
+    std::function<std::string(const std::string&)> grp = sys.zero_pair_group;
+    if (!grp && n <= 50) grp = [](const std::string&) { return std::string("all"); };
+    if (grp) for (int i = 0; i < n; i++) for (int j = 0; j < n; j++) {
+      if (i == j || (tier == 0 && j < i)) continue;
+      if (C.alpha[i].empty() || C.alpha[j].empty()) continue;  // frozen / fixed parameters
+      std::string gi = grp(names[i]), gj = grp(names[j]); if (gi.empty() || gi != gj) continue;
+      for (LD sgn : {1.0L, -1.0L}) { LD v = sgn * C.base.m[names[i]]; if (v == C.base.m[names[j]]) continue; if (sys.allow && !sys.allow(names[j], v)) continue; Assignment a; a.nd = 1; a.d[0] = {j, v}; C.as.push_back(a); C.relation_pairs++; }
+    }
+  }
+  // zero sets inside a family of like parameters (all amplitudes X_d of a Roy-type field, all their frequencies a_Xd): a shortcut
+  // guarded by a conjunction of "== 0" tests on a set Z is exposed by any zero set S with Z inside S that keeps the parameters W of the
+  // dropped term alive.  Explored: S = F minus R for every R with |R| <= 2 (reaches every Z whose W has at most two members of F);
+  // every subset of F when F is small (quick: |F| <= 10, thorough: |F| <= 15, except in the C09 passes).  Full point lattice, all evaluators.
+  {
+    std::vector<std::vector<std::string>> fams;
+    if (sys.zero_families) fams = sys.zero_families(names);
+    else {
+      std::vector<std::string> amp, frq;
+      for (auto& nm : names) { size_t u = nm.rfind('_'); if (u == std::string::npos || u == 0 || nm.compare(0, 2, "a_") == 0) continue; std::string f = "a_" + nm.substr(0, u) + nm.substr(u + 1); if (std::find(names.begin(), names.end(), f) != names.end()) { amp.push_back(nm); frq.push_back(f); } }
+      if (!amp.empty()) { fams.push_back(amp); fams.push_back(frq); }
+    }
+    for (auto& fam : fams) {
+      std::vector<int> F;
+      for (auto& nm : fam) { auto it = std::find(names.begin(), names.end(), nm); if (it == names.end()) { fprintf(stderr, "E1 HARNESS ERROR: zero family names unknown parameter %s\n", nm.c_str()); exit(2); } int i = it - names.begin(); if (std::find(C.alpha[i].begin(), C.alpha[i].end(), 0.0L) != C.alpha[i].end()) F.push_back(i); }
+      if (F.size() < 3 || F.size() > 31) continue;
+      int k = F.size(); unsigned all = (1u << k) - 1; int fi = C.families.size(); C.families.push_back(F);
+      bool full = k <= ((tier == 1 && O.prop != "C09") ? 15 : 10); C.family_full.push_back(full);
+      auto push = [&](unsigned m) { Assignment a; a.nd = std::min(3, __builtin_popcount(m)); a.fam = fi; a.mask = m; C.as.push_back(a); C.family_sets++; };
+      if (full) { for (unsigned m = 1; m <= all; m++) if (__builtin_popcount(m) >= 3) push(m); }
+      else {
+        push(all);
+        for (int i = 0; i < k; i++) push(all & ~(1u << i));
+        if (k <= 24) for (int i = 0; i < k; i++) for (int j = i + 1; j < k; j++) push(all & ~(1u << i) & ~(1u << j));
+        if (tier == 1 && O.prop != "C09" && k <= 24) for (int i = 0; i < k; i++) for (int j = i + 1; j < k; j++) for (int l = j + 1; l < k; l++) push(all & ~(1u << i) & ~(1u << j) & ~(1u << l));
+      }
+    }
+  }
   if (sys.structured && !g_red) {
     for (auto& set : sys.structured(names)) {
       std::vector<Dev> dv; for (auto& kv : set) { auto it = std::find(names.begin(), names.end(), kv.first); if (it == names.end()) { fprintf(stderr, "E1 HARNESS ERROR: structured assignment names unknown parameter %s\n", kv.first.c_str()); exit(2); } dv.push_back({(int)(it - names.begin()), kv.second}); }
@@ -399,7 +441,8 @@ static int run_system(const System& sys0, int tier, FILE* out, double t_end) {
   std::string al = "{"; bool first = true; long nalpha = 0;
   for (size_t i = 0; i < C.alpha.size(); i++) nalpha += C.alpha[i].size();
   (void)first; (void)al;
-  fprintf(out, "{\"k\":\"system\",\"system\":\"%s\",\"prop\":\"%s\",\"nparams\":%zu,\"alphabet\":%ld,\"points\":%zu,\"assignments\":%zu,\"level_end\":[%d,%d,%d,%d],\"zero_pairs\":%zu,\"structured\":%zu,\"base\":%s}\n", sys.name.c_str(), sys.prop.c_str(), C.base.names.size(), nalpha, C.pts.size(), C.as.size(), C.level_end[0], C.level_end[1], C.level_end[2], C.level_end[3], C.zero_pairs, C.nstructured, fmt_params(C.base).c_str());
+  std::string famdesc; for (size_t f = 0; f < C.families.size(); f++) { famdesc += (f ? "; " : "") + std::string(C.family_full[f] ? "all subsets of {" : "complements of <=2(3) of {"); for (int i : C.families[f]) famdesc += C.base.names[i] + " "; famdesc += "}"; }
+  fprintf(out, "{\"k\":\"system\",\"system\":\"%s\",\"prop\":\"%s\",\"nparams\":%zu,\"alphabet\":%ld,\"points\":%zu,\"assignments\":%zu,\"level_end\":[%d,%d,%d,%d],\"zero_pairs\":%zu,\"relation_pairs\":%zu,\"structured\":%zu,\"family_sets\":%zu,\"families\":\"%s\",\"base\":%s}\n", sys.name.c_str(), sys.prop.c_str(), C.base.names.size(), nalpha, C.pts.size(), C.as.size(), C.level_end[0], C.level_end[1], C.level_end[2], C.level_end[3], C.zero_pairs, C.relation_pairs, C.nstructured, C.family_sets, famdesc.c_str(), fmt_params(C.base).c_str());
   return rc;
 }
 
